@@ -134,6 +134,19 @@ theorem C11_no_leak (cfg : Cfg) (cap : Nat) (ops : List Op) (id : Nat) (i : Inne
   · exact absurd hb hn
 
 
+/-- **C11_shutdown_releases**: once the service has been dropped and the last outstanding
+handle is gone, no allocation is left (so the application data, the pool and the connection data
+they reference are released; a pooled allocation that survived would keep the pool alive through
+its own `app_state` reference) -/
+theorem C11_shutdown_releases (cfg : Cfg) (cap : Nat) (ops : List Op)
+    (hdead : (runW cfg (World.init cap) ops).svcAlive = false)
+    (hnone : (runW cfg (World.init cap) ops).slots = []) :
+    (runW cfg (World.init cap) ops).heap = [] ∧ aliveApp (runW cfg (World.init cap) ops) = 0 := by
+  have h := C11_pool_inv cfg cap ops
+  have hen := runW_dead_disabled cfg ops (World.init cap) (by intro h; cases h) hdead
+  have hheap := heap_empty_of_unreferenced h hnone (h.disabled hen)
+  exact ⟨hheap, by simp [aliveApp, hdead, hheap]⟩
+
 /-! ## Non-vacuity: concrete histories that satisfy the hypotheses above (kernel-evaluated) -/
 
 private def rq (uri : String) : Req := ⟨⟨"GET", uri, "11", none, []⟩, none, []⟩
@@ -157,5 +170,9 @@ example : (runW theCfg (World.init 1)
 example : ((runW theCfg (World.init 1)
     [.serve (rq "/") [.stash 1], .serve (rq "/") [.stash 2], .serve (rq "/") [.stash 3],
      .drop 1, .drop 2, .drop 3]).heap.map (·.1)) = [0] := by decide
+/-- hypotheses of `C11_shutdown_releases`: service dropped while a clone is alive, clone dropped later -/
+example : (runW theCfg (World.init 2) [.serve (rq "/u/1") [.stash 1], .serve (rq "/") [], .disable, .drop 1]).svcAlive = false ∧
+    (runW theCfg (World.init 2) [.serve (rq "/u/1") [.stash 1], .serve (rq "/") [], .disable, .drop 1]).slots = [] := by
+  decide
 
 end ActixModel.ReqPool.C11
